@@ -21,7 +21,8 @@ TRUSTED_BASE = L.TRUSTED_COMMON
 PROFILE = L.profile(without=['clear', 'pickle', 'unpickle'],
                     weights={'read': 14, 'setattr': 14, 'set': 12, 'sync': 5, 'expire': 2, 'expireall': 1, 'rawupdate': 3, 'rawdelete': 1,
                              'select': 10, 'destroy': 3}, p_fault=0.0, p_iterwrite=0.2,
-                    motifs=[L.motif_refresh_after_raw, L.motif_lazy_refetch, L.motif_expire_get, L.motif_lazy_expire], p_motif=0.08)
+                    motifs=[L.motif_refresh_after_raw, L.motif_lazy_refetch, L.motif_expire_get, L.motif_lazy_expire,
+                            L.motif_refused_flush_refetch, L.motif_expire_assign_reload], p_motif=0.09)
 
 
 def corpus():
